@@ -633,7 +633,13 @@ CFG = {"oracles": (), "n_bundles": 26, "hook": "gx.props.c12.install", "tie": Fa
                    "add_column": 2, "add_formula_column": 1.5, "modify_formula": 1, "to_formula": 0.7, "to_data": 0.3,
                    "remove_table": 0.3, "rename_table": 1, "add_table": 0.7, "duplicate_table": 0.2,
                    "rename_choices": 2, "label_change": 0.7, "display_formula": 0.3, "add_rule": 0.2,
-                   "remove_view_stuff": 0.7, "reverse_column": 0.5}}
+                   "remove_view_stuff": 0.7, "reverse_column": 0.5,
+                   # an OLD undo list replayed against a document that has moved on is a raw application of doc
+                   # actions (it can remove a summary table's data table under its metadata): outside this
+                   # property's histories, as for C09 / C10; kinds added to the shared generator after this
+                   # check was written are switched off here and enabled one by one
+                   "stale_undo": 0, "ref_into_summary": 0, "remove_summary_widget": 1, "type_change_write": 1,
+                   "unhashable_key": 0.5, "agg_unsorted": 0.3}}
 
 
 def run(ck):
